@@ -9,6 +9,7 @@ import Driver.C12
 import Driver.C04
 import Driver.C11
 import Driver.C14
+import Driver.C06
 import Driver.C17
 import Driver.C19
 /-!
@@ -36,7 +37,7 @@ def dispatch (j : Json) : Json :=
   | "C01" => Driver.C03.handle j
   | "C02" => Driver.C03.handle j
   | "C07" => Driver.C03.handle j
-  | "C06" => Driver.C03.handle j
+  | "C06" => Driver.C06.handle j
   | p => Json.mkObj [("bad-op", Json.str p)]
 
 partial def loop (hin hout : IO.FS.Stream) : IO Unit := do
